@@ -99,11 +99,11 @@ func Cleanup() {
 // If mustAgree is set, it waits for a second definite answer (within the timeout) and
 // reports disagreement through the error.
 func Solve(sc *Script, nGets int, timeoutS int, seed int, only string) (*Result, error) {
-	return SolveWithAbstraction(sc, nil, nGets, timeoutS, seed, only)
+	return SolveWithAbstraction(sc, nil, nil, nGets, timeoutS, seed, only)
 }
 
 // SolveWithAbstraction additionally races z3 on a QF_BV over-approximation; only its "unsat" counts.
-func SolveWithAbstraction(sc *Script, abs *Script, nGets int, timeoutS int, seed int, only string) (*Result, error) {
+func SolveWithAbstraction(sc *Script, abs *Script, weak *Script, nGets int, timeoutS int, seed int, only string) (*Result, error) {
 	fileMu.Lock()
 	fileSeq++
 	n := fileSeq
@@ -144,15 +144,28 @@ func SolveWithAbstraction(sc *Script, abs *Script, nGets int, timeoutS int, seed
 			absFile = ""
 		}
 	}
+	var weakFile string
+	var weakBs []Backend
+	if weak != nil && only == "" {
+		weakFile = file + ".qf.smt2"
+		if err := os.WriteFile(weakFile, []byte(weak.Text), 0o644); err == nil {
+			defer os.Remove(weakFile)
+			for _, b := range Backends() {
+				if strings.HasPrefix(b.Name, "z3") || !weak.HasLambda {
+					weakBs = append(weakBs, b)
+				}
+			}
+		}
+	}
 	// Stage 1: solver seed 0 for the whole budget: the configuration every claimed obligation was
 	// developed under, so a run is reproducible whatever seed the caller exports. Stage 2 (only
 	// after "unknown"): one more race under the caller's seed, because solver heuristics
 	// (quantifier instantiation order above all) are seed-sensitive. Soundness never depends on
 	// the seed; only "unknown" vs a definite answer does.
 	start := time.Now()
-	r := raceSeeds(file, absFile, bs, nGets, timeoutS, []int{0})
+	r := raceSeeds(file, absFile, weakFile, weakBs, bs, nGets, timeoutS, []int{0})
 	if r.Verdict == Unknown && timeoutS >= 20 {
-		r2 := raceSeeds(file, absFile, bs, nGets, timeoutS/2, []int{seed + 1})
+		r2 := raceSeeds(file, absFile, weakFile, weakBs, bs, nGets, timeoutS/2, []int{seed + 1})
 		if r2.Verdict == Unknown {
 			r2.Raw = r.Raw + "\n" + r2.Raw
 		}
@@ -164,13 +177,13 @@ func SolveWithAbstraction(sc *Script, abs *Script, nGets int, timeoutS int, seed
 
 // raceSeeds races every back end under every seed on the script (and z3 on the QF_BV
 // abstraction, where only "unsat" counts); the first definite answer wins.
-func raceSeeds(file, absFile string, bs []Backend, nGets, timeoutS int, seeds []int) *Result {
+func raceSeeds(file, absFile, weakFile string, weakBs []Backend, bs []Backend, nGets, timeoutS int, seeds []int) *Result {
 	ctx, cancel := context.WithTimeout(context.Background(), time.Duration(timeoutS+5)*time.Second)
 	defer cancel()
 	start := time.Now()
 	n := 0
 	ch := make(chan *Result, 64)
-	launch := func(b Backend, f string, seed int, abstract bool) {
+	launch := func(b Backend, f string, seed int, abstract bool, tag ...string) {
 		n++
 		go func() {
 			args := b.Args(f, timeoutS, seed)
@@ -187,6 +200,10 @@ func raceSeeds(file, absFile string, bs []Backend, nGets, timeoutS int, seeds []
 					r.Raw = "abstraction inconclusive"
 				}
 				r.Solver = b.Name + "/qfbv-abstraction"
+				if len(tag) > 0 {
+					r.Raw = tag[0] + " inconclusive"
+					r.Solver = b.Name + "/" + tag[0]
+				}
 			} else {
 				r = parseOutput(out.String(), nGets)
 				r.Solver = b.Name
@@ -206,6 +223,11 @@ func raceSeeds(file, absFile string, bs []Backend, nGets, timeoutS int, seeds []
 				launch(b, absFile, seeds[0], true)
 			}
 		}
+	}
+	for _, b := range weakBs {
+		// quantifier-free weakening (hypotheses with quantifiers replaced by their instances):
+		// only "unsat" counts
+		launch(b, weakFile, seeds[0], true, "qf-instances")
 	}
 	var raws []string
 	var last *Result
